@@ -174,6 +174,14 @@ async def start_tls(
             )
 
 
+def _new_response_handler(loop: asyncio.AbstractEventLoop) -> ResponseHandler:
+    # No request is on the wire of a new connection: whatever the peer sends
+    # before the first request head is written was not asked for.
+    proto = ResponseHandler(loop=loop)
+    proto.idle = True
+    return proto
+
+
 class Connection:
     """Represents a single connection."""
 
@@ -374,7 +382,7 @@ class BaseConnector:
         ] = defaultdict(OrderedDict)
 
         self._loop = loop
-        self._factory = functools.partial(ResponseHandler, loop=loop)
+        self._factory = functools.partial(_new_response_handler, loop)
 
         # start keep-alive connection cleanup task
         self._cleanup_handle: asyncio.TimerHandle | None = None
